@@ -40,6 +40,8 @@ class Fn:
             raise ValueError('boom from fn')
         if self.name == 'copy':
             return equal_copy(t)
+        if self.name == 'syntax':
+            compile('1 +', '<unknown>', 'eval')     # a real SyntaxError with location info (its rendering has several lines)
         return t
 
     def __repr__(self):
@@ -96,6 +98,8 @@ def build(term):
         obj = Coalesce(*[build(x) for x in term[1]])
     elif k == 'coalesce_skip':
         obj = Coalesce(*[build(x) for x in term[1]], skip=SKIP_VALUE)
+    elif k == 'coalesce_any':
+        obj = Coalesce(*[build(x) for x in term[1]], skip_exc=Exception)
     elif k == 'or':
         obj = Or(*[build(x) for x in term[1]])
     elif k == 'and':
@@ -166,6 +170,8 @@ def ev(term, target):
             raise F('ValueError', False)
         if term[1] == 'copy':
             return equal_copy(target)
+        if term[1] == 'syntax':
+            raise F('SyntaxError', False)
         return target
     if k == 'check':
         if type(target) is str:
@@ -241,6 +247,14 @@ def ev(term, target):
                 attempts.append({'spine': f.spine, 'err': f.err, 'closed': False})
                 raise Fail(f.err, False, [frame(term, target, attempts)], f.eid)
         raise Fail('CoalesceError', True, [frame(term, target, attempts)])
+    if k == 'coalesce_any':      # skip_exc=Exception: every failing branch is abandoned, whatever its class
+        attempts = []
+        for kid in kids:
+            try:
+                return ev(kid, target)
+            except Fail as f:
+                attempts.append({'spine': f.spine, 'err': f.err, 'closed': True})
+        raise Fail('CoalesceError', True, [frame(term, target, attempts)])
     if k == 'coalesce_skip':
         attempts = []
         last_was_attempt = False
@@ -308,19 +322,30 @@ def parse(msg):
         return None, None, 'no target-spec trace header'
     items = []
     i = 2
+    pending = []      # lines that are neither Target / Spec / error lines: continuation of a multi-line error text, or the tail
+    end = 2
     while i < len(lines):
         m = LINE.match(lines[i])
-        if m:
-            items.append({'depth': len(m.group(1)), 'marker': m.group(2), 'kind': m.group(3)[0], 'text': m.group(4)})
+        m2 = None if m else ELINE.match(lines[i])
+        is_err = bool(m2) and (':' in m2.group(3) or 'Error' in m2.group(3) or 'File "' in m2.group(3)) and not lines[i].startswith('  ')
+        if m or is_err:
+            if pending and items and items[-1]['kind'] == 'E':
+                items[-1]['text'] += '\n' + '\n'.join(pending)
+            elif pending:
+                break
+            pending = []
+            if m:
+                items.append({'depth': len(m.group(1)), 'marker': m.group(2), 'kind': m.group(3)[0], 'text': m.group(4)})
+            else:
+                items.append({'depth': len(m2.group(1)), 'marker': m2.group(2), 'kind': 'E', 'text': m2.group(3)})
             i += 1
+            end = i
             continue
-        m = ELINE.match(lines[i])
-        if m and (':' in m.group(3) or 'Error' in m.group(3)) and not lines[i].startswith('  '):
-            items.append({'depth': len(m.group(1)), 'marker': m.group(2), 'kind': 'E', 'text': m.group(3)})
-            i += 1
-            continue
-        break
-    return items, lines[i:], None
+        pending.append(lines[i])
+        i += 1
+    if pending and items and items[-1]['kind'] == 'E':
+        items[-1]['more'] = list(pending)       # a multi-line error text of the last branch, or the tail: the aligner accepts either
+    return items, lines[end:], None
 
 
 def value_matches(text, rendering):
@@ -348,8 +373,8 @@ def is_data(v):
     return isinstance(v, (int, str, float, type(None)))
 
 
-def expected_items(stack, depth, root_eid, prev_target, out):
-    """the lines a faithful trace shows for *stack* (frames, single attempts in-lined), appended to out"""
+def expected_items(stack, depth, root_eid, out):
+    """the frames / groups / error lines a faithful trace shows for *stack* (single attempts in-lined), appended to out"""
     flat = []
 
     def flatten(frames):
@@ -364,17 +389,14 @@ def expected_items(stack, depth, root_eid, prev_target, out):
         return False
     flatten(stack)
     for i, fr in enumerate(flat):
-        out.append({'kind': 'T', 'obj': fr['target'], 'required': fr['target'] is not prev_target and not fr['optional'], 'depth': depth,
-                    'optional_frame': fr['optional']})
-        if fr['target'] is not prev_target and not fr['optional']:
-            prev_target = fr['target']
         at = fr['attempts']
         branch = bool(at) and (len(at) >= 2 or not fr.get('single_inline', True))
-        out.append({'kind': 'S', 'obj': fr['spec'], 'text': fr['text'], 'depth': depth, 'optional': fr['optional'], 'branch': branch})
+        out.append({'kind': 'F', 'target': fr['target'], 'spec': fr['spec'], 'text': fr['text'], 'depth': depth, 'optional': fr['optional'], 'branch': branch})
         if branch:
             for a in at:
                 out.append({'kind': 'GROUP', 'depth': depth + 1})
-                expected_items(a['spine'], depth + 1, root_eid, prev_target, out)
+                expected_items(a['spine'], depth + 1, root_eid, out)
+                out.append({'kind': 'ENDGROUP', 'depth': depth + 1})
         nxt = flat[i + 1]['eid'] if i + 1 < len(flat) else None
         if fr['eid'] is not None and fr['eid'] != root_eid and fr['eid'] != nxt:
             out.append({'kind': 'E', 'err': fr['err'], 'depth': depth})
@@ -382,39 +404,48 @@ def expected_items(stack, depth, root_eid, prev_target, out):
 
 
 def align(exp, items):
-    """walk expected and parsed lines together; returns a problem description or None"""
+    """walk expected and parsed lines together; returns a problem description or None.
+    A Target line is required exactly when the target object differs from the last one shown on the way to this frame."""
     i = 0
     group_head = False
+    shown = [object()]        # stack of "last target shown", one entry per open branch group
     for e in exp:
         it = items[i] if i < len(items) else None
         if e['kind'] == 'GROUP':
             group_head = True
+            shown.append(shown[-1])
             continue
-        if e['kind'] == 'T':
-            if it is not None and it['kind'] == 'T' and it['depth'] == e['depth'] and value_matches(it['text'], render(e['obj'])):
-                if group_head and it['marker'] != '\\':
-                    return 'first line of a branch group is not marked: %r' % (it,)
-                group_head = False
-                i += 1
-            elif e['required']:
-                return 'no Target line showing %s where the target changed (found %r)' % (render(e['obj'])[:80], it)
+        if e['kind'] == 'ENDGROUP':
+            shown.pop()
             continue
-        if e['kind'] == 'S':
-            ok = it is not None and it['kind'] == 'S' and it['depth'] == e['depth'] and value_matches(it['text'], render(e['obj'], e['text']))
+        if e['kind'] == 'F':
+            j = i
+            t_line = None
+            if it is not None and it['kind'] == 'T' and it['depth'] == e['depth'] and value_matches(it['text'], render(e['target'])):
+                t_line = it
+                j = i + 1
+            s_line = items[j] if j < len(items) else None
+            ok = s_line is not None and s_line['kind'] == 'S' and s_line['depth'] == e['depth'] and value_matches(s_line['text'], render(e['spec'], e['text']))
             if not ok:
                 if e['optional']:
-                    continue
-                return 'expected Spec line for %s at depth %d, found %r' % (render(e['obj'], e['text'])[:120], e['depth'], it)
-            was_head = group_head
-            if group_head and it['marker'] != '\\':
-                return 'first line of a branch group is not marked: %r' % (it,)
+                    continue          # a completed chain step that the trace does not list
+                if t_line is None and it is not None and it['kind'] == 'T' and it['depth'] == e['depth']:
+                    return 'Target line %r does not show what %s received: %s' % (it['text'][:80], render(e['spec'], e['text'])[:80], render(e['target'])[:80])
+                return 'expected Spec line for %s at depth %d, found %r' % (render(e['spec'], e['text'])[:120], e['depth'], s_line)
+            if t_line is None and e['target'] is not shown[-1]:
+                return 'no Target line showing %s although spec %s received a new target' % (render(e['target'])[:80], render(e['spec'], e['text'])[:80])
+            first = t_line or s_line
+            if group_head and first['marker'] != '\\':
+                return 'first line of a branch group is not marked: %r' % (first,)
+            if e['branch'] and s_line['marker'] != '+' and not (group_head and t_line is None):
+                return 'spec %s with several attempted branches is not rendered as a branch point' % render(e['spec'])[:120]
             group_head = False
-            if e['branch'] and it['marker'] != '+' and not was_head:
-                return 'spec %s with several attempted branches is not rendered as a branch point' % render(e['obj'])[:120]
-            i += 1
+            shown[-1] = e['target']
+            i = j + 1
             continue
         if e['kind'] == 'E':
-            if it is None or it['kind'] != 'E' or it['depth'] != e['depth'] or e['err'] not in it['text']:
+            text = '' if it is None else it['text'] + '\n' + '\n'.join(it.get('more', []))
+            if it is None or it['kind'] != 'E' or it['depth'] != e['depth'] or e['err'] not in text:
                 return 'expected the error that ended this branch (%s) at depth %d, found %r' % (e['err'], e['depth'], it)
             i += 1
     if i < len(items):
@@ -471,7 +502,7 @@ def run_case(case):
     # P1: begins with the root target
     if not items or items[0]['kind'] != 'T' or items[0]['depth'] != 0 or not value_matches(items[0]['text'], render(target)):
         return R({'expected': 'first trace line is the root target', 'observed': repr(items[:1]), **where}, oc)
-    exp = expected_items(want.spine, 0, want.eid, object(), [])
+    exp = expected_items(want.spine, 0, want.eid, [])
     problem = align(exp, items)
     if problem:
         return R({'expected': 'trace follows the failure spine', 'observed': problem, **where}, oc)
@@ -502,7 +533,7 @@ def kinds(term):
 
 
 OK_LEAVES = [['path', 'a'], ['fn', 'ok'], ['fn', 'copy'], ['T', 'n'], ['val', 'v']]
-FAIL_LEAVES = [['path', 'zz'], ['T', 'zz'], ['Tattr', 'zz'], ['fn', 'boom'], ['check'], ['m', 5], ['match'], ['S', 'zz'], ['path', 'a.zz']]
+FAIL_LEAVES = [['path', 'zz'], ['T', 'zz'], ['Tattr', 'zz'], ['fn', 'boom'], ['fn', 'syntax'], ['check'], ['m', 5], ['match'], ['S', 'zz'], ['path', 'a.zz']]
 
 
 def outcome_of(term):
@@ -528,6 +559,9 @@ def n_fail(term):
 
 
 # terms that SUCCEED after abandoning a failed branch: placed before / beside a later failure they must leave no stale branch in the trace
+# chains of three and more steps that fail late: inside an abandoned branch their error is not the root error
+LONG_CHAINS = [['tuple', [['fn', 'ok'], ['fn', 'copy'], ['path', 'zz']]], ['pipe', [['path', 'a'], ['fn', 'ok'], ['fn', 'copy'], ['T', 'zz']]],
+               ['tuple', [['path', 'a'], ['path', 'b'], ['fn', 'ok'], ['check']]], ['tuple', [['fn', 'ok'], ['fn', 'ok'], ['fn', 'boom']]]]
 RECOVERED = [['coalesce', [['path', 'zz'], ['path', 'a']]], ['or', [['path', 'zz'], ['path', 'a']]],
              ['switch', [[['path', 'zz'], ['val', 1]], [['fn', 'ok'], ['path', 'a']]]],
              ['coalesce', [['check'], ['T', 'zz'], ['fn', 'ok']]]]
@@ -549,6 +583,7 @@ def composites(kids):
         out.append(['pipe', [a, b]])
         out.append(['coalesce', [a, b]])
         out.append(['coalesce_skip', [a, b]])
+        out.append(['coalesce_any', [a, b]])
         out.append(['coalesce_skip', [a, ['T', 'n']]])
         out.append(['or', [a, b]])
         out.append(['and', [a, b]])
@@ -568,7 +603,7 @@ def gen_cases(tier):
         if buckets.get(key, 0) < K:
             buckets[key] = buckets.get(key, 0) + 1
             reps.append(t)
-    kids2 = [['path', 'a'], ['path', 'zz'], ['fn', 'boom'], ['fn', 'copy'], ['tuple', [['T', 'n'], ['fn', 'copy']]]] + RECOVERED + reps
+    kids2 = [['path', 'a'], ['path', 'zz'], ['fn', 'boom'], ['fn', 'copy'], ['tuple', [['T', 'n'], ['fn', 'copy']]]] + RECOVERED + LONG_CHAINS + reps
     level2 = composites(kids2)
     terms += level2
     if tier != 'quick':
@@ -603,4 +638,4 @@ def subs(tier, only=None):
                 rule='case = (target kind, spec term with at least one failing leaf reached); the parsed trace is compared with the failure spine of '
                      'the reference interpreter; non-trivial = the evaluation fails',
                 min_nontrivial=2000, min_outcomes=5,
-                required_tags=['dict', 'list', 'tuple', 'pipe', 'spec', 'auto', 'coalesce', 'coalesce_skip', 'or', 'and', 'switch', 'fn:copy', 'short', 'long', 'unicode'])]
+                required_tags=['dict', 'list', 'tuple', 'pipe', 'spec', 'auto', 'coalesce', 'coalesce_skip', 'coalesce_any', 'fn:syntax', 'or', 'and', 'switch', 'fn:copy', 'short', 'long', 'unicode'])]
